@@ -228,7 +228,10 @@ fn gen_outputs(rng: &mut Rng, f: &Features) -> Vec<OutSpec> {
 
 fn gen_id_ref(rng: &mut Rng) -> IdRef {
   match rng.below(10) {
-    0..=5 => IdRef::Known(rng.below(64) as u32),
+    0..=2 => IdRef::Known(rng.below(64) as u32),
+    // an inscription the transaction really spends: accepted parents, and
+    // with several of them children of more than one collection
+    3..=5 => IdRef::Carried(rng.below(8) as u32),
     6 => IdRef::KnownTxIndex(rng.below(64) as u32, rng.below(4) as u32),
     7 => IdRef::Missing(rng.below(1000) as u32),
     8 => IdRef::RawBytes(rng.bytes(rng.clone().usize(40))),
